@@ -732,3 +732,21 @@ Proof.
   cbn zeta. pose proof (set_frame_len_spec (frame_set_tfdz f d)) as (_ & S & T & _).
   split; [exact S|]. unfold tsize_fresh. rewrite T. split; reflexivity.
 Qed.
+
+(* ================= recorded finding: len() counts a pointer pack() never emits ================= *)
+Definition unused_pointer_frame : frame :=
+  {| hdr := HPrim {| pbase := {| scid := 1; src_dest := 0; vcid := 1; map_id := 1 |};
+                     frame_len := 17; bypass := 0; prot := 0; ocf_flag := 0; vcf_len := 0;
+                     vcf_count := None |};
+     ftfdf := {| rules := VpNoSegmentation; ident := 0; fhp := Some 5; tfdz := [97; 98; 99; 100];
+                 tsize := 7 |};
+     izone := None; ocf := None; fecf := None |}.
+
+(* outside the hypothesis "pointer supplied exactly when the standard has one" of
+   frame_len_is_pack_len the statement fails: the constructor accepts the pointer, pack drops it,
+   len() counts it *)
+Theorem frame_len_unused_pointer_refuted :
+  tfdf_new VpNoSegmentation 0 [97; 98; 99; 100] (Some 5) = Ok (ftfdf unused_pointer_frame) /\
+  exists raw, frame_pack unused_pointer_frame false None = Ok raw /\
+              len raw = 12 /\ frame_len_of unused_pointer_frame = 14.
+Proof. split; [reflexivity|]. eexists. split; [reflexivity|]. split; reflexivity. Qed.
